@@ -10,19 +10,20 @@ CONSTANTS
   MaxKw = 0
   FBug = "none"
   XMaxItems = 2
-  XLits <- F2XLits
-  XNames <- F2XNames
-  XChains <- F2XChains
-  XConvs <- F2XConvs
-  XSpecs <- F2XSpecs
-  XPosVals <- F1XPos
+  XLits <- N1XLits
+  XNames <- N1XNames
+  XChains <- N1XChains
+  XConvs <- N1XPlain
+  XSpecs <- N1XPlain
+  XPosVals <- XOne
   XExtraVals <- XOne
   XKwNames <- KwEdge
-  XKwVals <- F1XKw
+  XKwVals <- XOne
   XKwExtraVals <- XOne
 INVARIANT Modelled
 INVARIANT Soundness
 INVARIANT Precision
 INVARIANT ResultType
+INVARIANT NoCrash
 INVARIANT EmitDone
 CHECK_DEADLOCK FALSE
